@@ -269,6 +269,12 @@ def ldap_schema(ctx, report):
     stateless_parsing(ctx, report, RULE='C09.R14', allow_memo=True, modules=('cryptoparser/common/parse.py', 'cryptoparser/tls/mysql.py', 'cryptoparser/tls/rdp.py',
                                                                           'cryptoparser/tls/openvpn.py', 'cryptoparser/tls/ldap.py', 'cryptoparser/tls/postgresql.py'),
                       title='no function between the wire bytes of an opportunistic-TLS message and the object writes class level state')
+    # the length a message parser reports is the number of bytes the message occupies (LDAP: the whole envelope, long form lengths
+    # included); rule shared with C03.R3, on the classes of these modules
+    from .c03 import return_lengths
+    report.rule('C09.R15', 'opportunistic-TLS messages: the reported length is the number of bytes the message occupied')
+    return_lengths(ctx, report, RULE='C09.R15', only={k.name for k in ctx.model.concrete_parsables() if k.module.name in MODULES})
+    report.floor('C09.R15', 8, 'message parse results')
     from .c11 import numeric_widths_shared
     numeric_widths_shared(ctx, report, 'C09.R10', 'fixed width integers (MySQL int<3> lengths, TPKT / COTP lengths): every width and byte order is written '
                           'exactly, a value that does not fit is refused, never truncated')
